@@ -6,6 +6,7 @@ mod c01;
 mod c02;
 mod c06;
 mod c10;
+mod c10l2;
 mod c12;
 mod c14;
 mod c15;
@@ -94,6 +95,7 @@ fn main() {
         "c02" => c02::run(&a),
         "c06" => c06::run(&a),
         "c10" => c10::run(&a),
+        "c10l2" => c10l2::run(&a),
         "c12" => c12::run(&a),
         "c14" => c14::run(&a),
         "c15" => c15::run(&a),
